@@ -25,7 +25,7 @@ def main():
         m = re.search(r"(?:gcc|cc|clang)\s.*", first)
         res = {}
         if m:
-            build = m.group(0).rstrip("*/ \n").split("&&")[0].strip()
+            build = re.split(r"\s{2,}\(|&&", m.group(0).rstrip("*/ \n"))[0].strip()
             for tok in set(re.findall(re.escape(src) + r"/([\w.\-]+)", build)):   # auxiliary files the build line reads (e.g. cflags.txt)
                 if os.path.isfile(os.path.join(src, tok)) and not tok.startswith("demo"):
                     shutil.copy(os.path.join(src, tok), os.path.join(out, tok)); extra.append(tok)
